@@ -1044,7 +1044,7 @@ class MkcalendarMethod(webdav.Method):
                         )
                     ]
                 )
-                ret = ET.Element("{urn:ietf:params:xml:ns:carldav:}mkcalendar-response")
+            ret = ET.Element("{urn:ietf:params:xml:ns:carldav:}mkcalendar-response")
             for propstat_el in webdav.propstat_as_xml(propstat):
                 ret.append(propstat_el)
             return webdav._send_xml_response(
